@@ -402,6 +402,27 @@ def run(out: Outcome) -> None:
         out.count("rddm_small_ring_long_runs")
         out.count("rddm_small_ring_drifts", events)
         out.case({"class": "RDDM", "params": prm, "n": len(xs), "small_ring": True})
+    # ADWIN on NOISE-FREE piecewise-constant streams of non-dyadic levels in larger units (a set point read from a PLC, a price): the window statistics of a constant stretch
+    # are zero up to rounding residue of either sign, on which no accepted configuration may raise (long enough for the window to be cut and refilled several times)
+    for k in range(4 if thorough else 2):
+        prm = rng.choice([{}, {"clock": rng.choice([1, 8, 32]), "delta": rng.choice([0.002, 0.05]), "m": 5, "min_window_size": 5, "min_num_instances": 10}])
+        levels = [rng.choice([20.1, 101.3, 0.7, 33.3]), rng.choice([80.3, 250.9, 7.9, 166.7]), rng.choice([20.1, 55.7, 0.1])]
+        xs = [lv for lv in levels for _ in range(rng.randint(280, 420))]
+        det, err = construct("ADWIN", prm)
+        if det is None:
+            continue
+        for t, x in enumerate(xs, 1):
+            try:
+                det.update(value=x)
+            except Exception as e:  # noqa: BLE001
+                rep = {"class": "ADWIN", "params": prm, "stream": xs[:t]}
+                if isinstance(e, ValueError) and "KF-C19-1" in out.findings and dets.model_raises_at_end("ADWIN", prm, xs[:t]):
+                    out.findings["KF-C19-1"].hits += 1
+                else:
+                    out.violation(f"ADWIN: accepted configuration {prm} raises {type(e).__name__}: {e} at update {t} of a noise-free piecewise-constant stream (levels {levels})", rep)
+                break
+        out.count("adwin_piecewise_constant_runs")
+        out.case({"class": "ADWIN", "params": prm, "levels": levels, "n": len(xs)})
     # every public package is importable as the FIRST frouros import of a process (operability starts with the import statement)
     import subprocess
     import sys
